@@ -32,6 +32,7 @@ def run(ctx):
     p5(ctx, F)
     p6(ctx, F)
     p8(ctx, F)
+    p9(ctx, F)
     from . import p04
     before, nv = len(ctx.instances), len(ctx.violations)
     p04.rule_k4(ctx, F)
@@ -42,6 +43,19 @@ def run(ctx):
         v["key"] = "C06.P7|" + v["key"]
     ctx.assume("A-HASH: equal 64-bit hash implies equal position (C05 gives only a minimum-distance bound; the structural part - "
                "every feature is keyed - is checked as P7)")
+
+
+def p9(ctx, F):
+    """P9 = C09.B8: a node that records a best score records the move with it - the table entry's move is what the root probe hands
+    to the driver as *the* move."""
+    from . import p09
+    before, nv = len(ctx.instances), len(ctx.violations)
+    p09.b8(ctx, F, {p_: p09.Node(F, p_) for p_ in p09.NODES}, parts=("best",))
+    for i in ctx.instances[before:]:
+        i["rule"] = "C06.P9(" + i["rule"] + ")"
+    for v in ctx.violations[nv:]:
+        v["rule"] = "C06.P9(" + v["rule"] + ")"
+        v["key"] = "C06.P9|" + v["key"]
 
 
 def p8(ctx, F):
